@@ -8,6 +8,12 @@ Open Scope N_scope.
 Lemma x_no_method_count_limit : x_method_count_limit = false /\ x_max_args_per_method = 64.
 Proof. split; reflexivity. Qed.
 
+(* the default branch of arg_layout_compatible as it stands in the source (fix F16): Abi.arg_layout_compatible models
+   exactly this conjunction *)
+Lemma x_byref_branch_agrees :
+  x_byref_default_branch = "a.layout_compatible(b) && a == a_effective && b == b_effective"%string.
+Proof. reflexivity. Qed.
+
 Lemma analyze_go_all_missing ev ce cle cln : forall ms acc,
   (forall m, In m ms -> index_of_method (m_name m) (td_methods cln) = None) ->
   analyze_go ev ce cle cln ms acc = AOk (rev acc ++ map (fun m => CM (m_name m) None 0) ms).
